@@ -194,7 +194,23 @@ class Z3Domain:
     def qr_r(self, M): raise Unsupported("qr in the z3 domain")
     def tri_solve(self, *a, **k): raise Unsupported("triangular solve in the z3 domain")
     def solve(self, *a, **k): raise Unsupported("solve in the z3 domain")
-    def lstsq(self, *a, **k): raise Unsupported("lstsq in the z3 domain")
+    def lstsq(self, A, B):
+        """minimum-norm least squares for a single-row system:  x = a^T b / (a a^T)  (0 if a = 0)"""
+        if A.shape[0] != 1:
+            raise Unsupported("lstsq with more than one row in the z3 domain")
+        vec = B.ndim == 1
+        B2 = B.reshape(1, -1)
+        n = A.shape[1]
+        aa = None
+        for j in range(n):
+            t = self.mul(A[0, j], A[0, j])
+            aa = t if aa is None else aa + t
+        X = np.empty((n, B2.shape[1]), dtype=object)
+        for c in range(B2.shape[1]):
+            w = self.div(B2[0, c], aa)
+            for j in range(n):
+                X[j, c] = z3.If(aa == 0, z3.RealVal(0), self.mul(A[0, j], w))
+        return X.reshape(-1) if vec else X
 
 
 def zarr(x):
